@@ -3,7 +3,7 @@
 // Streams (real code vs Lean model, compared by float bit patterns):
 //
 //	c17.downsample  lttb.Downsample directly: exhaustive (count, threshold) pairs + random pairs
-//	c17.bucketsok   the bucket-arithmetic hypothesis of theorem downsample_exact_partial
+//	c17.bucketsok   the bucket-arithmetic condition of theorems buckets_ok / downsample_exact_of_bucketsOK
 //	c17.plot        plot.Plot: Add in generated arrival orders, Close, VerifData (rows + labels)
 //	c17.adds        only the Adds (out-of-domain time stamps: wrap-around, errMonotonicTimestamp)
 //	plotcmd         the `plot` command on encoded result files: data block of the HTML vs VerifData
@@ -414,11 +414,11 @@ func resultsTokens(rs []res) string {
 }
 
 type plotOut struct {
-	line    string
-	rows    [][]float64 // as returned (not canonicalised)
-	labels  []string
-	addErr  int // index of the failing Add, -1 if none
-	dataErr error
+	line     string
+	rows     [][]float64 // as returned (not canonicalised)
+	labels   []string
+	addErr   int // index of the failing Add, -1 if none
+	dataErr  error
 	panicked bool
 }
 
